@@ -14,10 +14,19 @@
 (* prints the exact expected values for the replay into typhon.physics.em.     *)
 EXTENDS Rat, Sequences, FiniteSets, TLC, Json
 
-Circle == {<<R(0), R(1)>>, <<Frac(3, 5), Frac(4, 5)>>, <<Frac(4, 5), Frac(3, 5)>>,
+CONSTANT Big                                            \* TRUE: the larger catalogue of the thorough tier
+BaseCircle == {<<R(0), R(1)>>, <<Frac(3, 5), Frac(4, 5)>>, <<Frac(4, 5), Frac(3, 5)>>,
            <<Frac(5, 13), Frac(12, 13)>>, <<Frac(12, 13), Frac(5, 13)>>,
            <<Frac(7, 25), Frac(24, 25)>>, <<Frac(24, 25), Frac(7, 25)>>, <<R(1), R(0)>>}
-Indices == {R(1), Frac(3, 2), R(2), R(3), R(4), Frac(4, 3), Frac(3, 4), Frac(5, 4), Frac(13, 5), Frac(12, 5), Frac(36, 13)}
+MoreCircle == {<<Frac(8, 17), Frac(15, 17)>>, <<Frac(15, 17), Frac(8, 17)>>, <<Frac(20, 29), Frac(21, 29)>>,
+               <<Frac(21, 29), Frac(20, 29)>>, <<Frac(9, 41), Frac(40, 41)>>, <<Frac(40, 41), Frac(9, 41)>>,
+               <<Frac(28, 53), Frac(45, 53)>>, <<Frac(45, 53), Frac(28, 53)>>, <<Frac(11, 61), Frac(60, 61)>>,
+               <<Frac(33, 65), Frac(56, 65)>>, <<Frac(16, 65), Frac(63, 65)>>, <<Frac(63, 65), Frac(16, 65)>>}
+Circle == IF Big THEN BaseCircle \cup MoreCircle ELSE BaseCircle
+BaseIndices == {R(1), Frac(3, 2), R(2), R(3), R(4), Frac(4, 3), Frac(3, 4), Frac(5, 4), Frac(13, 5), Frac(12, 5), Frac(36, 13)}
+MoreIndices == {Frac(15, 8), Frac(8, 15), Frac(21, 20), Frac(20, 21), Frac(40, 9), Frac(17, 8), Frac(29, 20), Frac(7, 24),
+                Frac(24, 7), Frac(133, 100), Frac(9, 10), Frac(10, 9), R(5), Frac(1, 2), Frac(7, 5)}
+Indices == IF Big THEN BaseIndices \cup MoreIndices ELSE BaseIndices
 Imag == {Frac(1, 2), R(1), R(3)}                       \* imaginary parts for the complex-n2 cases
 
 OnCircle(p) == Add(Mul(p[1], p[1]), Mul(p[2], p[2])) = R(1)
